@@ -235,6 +235,26 @@ class C14(CheckBase):
 
     # -- generation ------------------------------------------------------------
     def gen(self, ch: Choices, tier: str) -> dict:
+        case = self._gen(ch, tier)
+        if not case.get("xproc") and ch.coin(0.25):
+            # One of the threads is sent an asynchronous exception (Ctrl-C
+            # in a worker, a failed allocation, a cancelled request) in the
+            # middle of one of its operations.  That operation may fail
+            # with it; every other operation, the observer and the
+            # sequential re-execution afterwards must be unaffected.
+            ti = ch.choose(len(case["tasks"]))
+            mode = ch.weighted([(5, "access"), (3, "distinct"), (2, "raw")],
+                               "imode")
+            case["interrupt"] = {
+                "task": ti, "opi": ch.choose(len(case["tasks"][ti])),
+                "mode": mode,
+                "nth": 1 + ch.choose(30 if mode == "access" else
+                                     ch.pick([12, 60, 250])),
+                "exc": ch.pick(["KeyboardInterrupt", "MemoryError",
+                                "SystemExit", "KeyboardInterrupt"])}
+        return case
+
+    def _gen(self, ch: Choices, tier: str) -> dict:
         if ch.coin(0.08):
             return self.gen_xproc(ch, tier)
         if ch.coin(0.15):
@@ -724,6 +744,9 @@ class C14(CheckBase):
                 for op in all_ops} if during else {}
         wrote_at: list = []          # scheduler step of that replacement
 
+        intr = case.get("interrupt")
+        intr_fired: list = []
+
         def phase(sub: str, policy_spec: dict, record_labels=None):
             proc = world.new_proc("P" + sub)
             with world.harness():
@@ -753,10 +776,27 @@ class C14(CheckBase):
                 out: list = []
                 results.append(out)
 
-                def body(ops=ops, out=out):
-                    for op in ops:
+                def body(ops=ops, out=out, ti=ti):
+                    for oi, op in enumerate(ops):
                         began = sched.step
-                        r_ = self.do_op(objs, op, box)
+                        it = None
+                        if intr and sub == "run" and intr["task"] == ti \
+                                and intr["opi"] == oi:
+                            import builtins
+                            it = trace.Interrupt(
+                                intr["nth"], getattr(builtins, intr["exc"]),
+                                distinct=intr["mode"] == "distinct",
+                                access=intr["mode"] == "access")
+                            trace.arm_interrupt(it)
+                        try:
+                            r_ = self.do_op(objs, op, box)
+                        except (KeyboardInterrupt, SystemExit) as e_:
+                            r_ = ["exc", type(e_).__name__, ""]
+                        finally:
+                            if it is not None:
+                                trace.arm_interrupt(None)
+                        if it is not None and it.fired is not None:
+                            intr_fired.append((ti, oi, it.fired, r_))
                         out.append([op, r_, began, sched.step])
                         done_ops[op[1]] += 1
                 sched.spawn("t%d" % ti, body, proc)
@@ -806,12 +846,18 @@ class C14(CheckBase):
                     op = obs_ops[si]
                     w0 = len(wrote_at)
                     sched.atomic = True
+                    # (the observer borrows the thread of the task that is
+                    # at the yield point: an interrupt pending for that
+                    # task is not meant for it)
+                    pending = trace._state["intr"]
+                    trace.arm_interrupt(None)
                     try:
                         r = self.do_op(objs, op, [None])
                     except WouldBlock:
                         r = None
                     finally:
                         sched.atomic = False
+                        trace.arm_interrupt(pending)
                     stats["observer_ops"] = stats.get("observer_ops", 0) + 1
                     # (once the second replacement has happened, a thread
                     # that starts now gets the third version)
@@ -985,10 +1031,20 @@ class C14(CheckBase):
                         "events": log.count}
         if wrote_at:
             stats["fired"]["midwrite"] = 1
+        if intr:
+            k_ = "fired" if intr_fired else "skipped"
+            stats[k_]["interrupt"] = 1
         for ti, out in enumerate(results):
-            for op, r, began, ended in out:
+            for oi, (op, r, began, ended) in enumerate(out):
                 stats["ops"] += 1
                 want = exp[canonical(op)]
+                if intr_fired and intr_fired[0][:2] == (ti, oi) and \
+                        r[0] == "exc" and r[1] == intr["exc"]:
+                    # the operation that was sent the exception may fail
+                    # with it (and with nothing else)
+                    log.add("res", ti, canonical(op), "interrupted",
+                            intr_fired[0][2][1])
+                    continue
                 if wrote_at:
                     # an operation that began after the second replacement
                     # must serve the third version; one that was under way
@@ -1057,6 +1113,8 @@ class C14(CheckBase):
             cover.add("compile-side-yields")
         if reload:
             cover.add("reload-race")
+        for _ti, _oi, where, _r in intr_fired:
+            cover.add("interrupt:" + where[1])
         return {"violations": uniq, "digest": log.digest(),
                 "events": sched.step, "stats": stats, "cover": sorted(cover),
                 "nontrivial": nontrivial,
@@ -1068,6 +1126,10 @@ class C14(CheckBase):
     # -- minimisation ----------------------------------------------------------
     def shrink_candidates(self, case: dict):
         c = case
+        if c.get("interrupt"):
+            d = copy.deepcopy(c)
+            del d["interrupt"]
+            yield d
         if c.get("xproc"):
             for i in range(len(c["seq"]) - 1, -1, -1):
                 if len(c["seq"]) > 1:
